@@ -8,8 +8,17 @@
 (*  conncap     session.SessionManager.CreateConnection               Check      (len(connMap) under connLock.RLock)           *)
 (*              (server-wide cap, SessionConfig.MaxConnections)       Insert     (connMap[id] = c under connLock.Lock; as is)  *)
 (*                                                                    InsertChk  (repaired: re-check and insert in one Lock)   *)
-(*  ctrlcap     session.ClientRegistry.Register                       Reg        (one mu.Lock section: at the cap the oldest   *)
-(*              (MaxControlConnections)                                           connection is evicted, then insert)          *)
+(*  ctrlcap     session.ClientRegistry.Register                       Reg        (one mu.Lock section: below the cap insert;   *)
+(*              (MaxControlConnections)                                           at the cap detach the oldest connection and   *)
+(*                                                                               call its Stream.Close() - the one point inside *)
+(*                                                                               the section a driver can see)                 *)
+(*                                                                    RegIns     (same section, after Close returned: insert)  *)
+(*                                                                    While a request is between Reg and RegIns it holds the   *)
+(*                                                                    registry lock: no other Register/Remove can start (a     *)
+(*                                                                    call that waits for the lock = the same call later).     *)
+(*                                                                    Variant "ctrlsplit" (not the code; generates schedules   *)
+(*                                                                    that must be unrealisable): the lock is released between *)
+(*                                                                    the two steps - deviation SplitRegister.                 *)
 (*  tuncap      session.TunnelRegistry.Register (MaxTunnels)          Reg        (one mu.Lock section: at the cap refuse)      *)
 (*  maplimit    mapping.BaseMappingHandler.handleConnection           Check      (checkConnectionQuota: activeConnCount.Load)  *)
 (*              (MappingConfig.MaxConnections / user quota)           Insert     (activeConnCount.Add(1); as is)               *)
@@ -50,6 +59,7 @@ CONSTANTS Kinds,        \* subset of {"conncap","ctrlcap","tuncap","maplimit","c
           Lims,         \* limit values
           NodeCounts,   \* numbers of service instances (quota kinds only; other kinds always 1)
           LockKeys,     \* subset of {"owner", "issuer"}: client id the repaired quota code keys its mutex on
+          Variants,     \* faulty variants to model: "ctrlsplit" = ClientRegistry.Register evicts and inserts in two lock sections
           FixedKinds,   \* kinds modelled in their repaired form; the tag "maplive" = the mapping handler keeps the slot
                         \* while the connection lives (kind maplimit, actions GoLive instead of Detach)
           WithRelease,  \* admitted requests may end (connection closed) while others still race
@@ -61,11 +71,11 @@ Procs == 1..MaxN
 Old == 100              \* pre-existing occupants are numbered Old+1, Old+2, ...
 
 VARIABLES cfg,    \* [k, n, lim, nodes, tg, key] - fixed per behaviour
-          pc,     \* per request: off | start | mid | undo | wait | count | put | index | adm | live | refused | rel | evicted
+          pc,     \* per request: off | start | mid | undo | evict | wait | count | put | index | adm | live | refused | rel | evicted
           cnt,    \* the number the code compares with the limit (len(map) / activeConnCount / countable index entries)
           pre,    \* pre-existing occupants still present
           q,      \* ctrlcap: connections in the registry, oldest first
-          lock,   \* repaired quotas: holder of the mutex <<instance, key>> (0 = free)
+          lock,   \* repaired quotas: holder of the mutex <<instance, key>> (0 = free); ctrlcap: lock[RL] = holder of the registry lock
           eff,    \* ghost: net contribution of each request to the semantic state
           dev,    \* ghost: a named deviation happened (StaleInsert, StalePut, SlotFreedWhileLive)
           over,   \* ghost: the limit was exceeded at some instant of this behaviour
@@ -87,6 +97,9 @@ Node(p) == IF cfg.nodes = 1 THEN 1 ELSE 1 + (p % 2)
 KeyOf(p) == IF K = "mapquota" /\ cfg.key = "issuer" /\ cfg.tg = "distinct" THEN p ELSE 0
 LockIds == (1..2) \X (0..MaxN)
 LK(p) == <<Node(p), KeyOf(p)>>
+RL == <<1, 0>>                                  \* ctrlcap: the registry lock
+CtrlLocked == "ctrlsplit" \notin Variants
+RegFree == K = "ctrlcap" /\ CtrlLocked => lock[RL] = 0
 
 Full(c) == Lim > 0 /\ c >= Lim      \* caps: 0 = unlimited
 QFull(c) == c >= Lim                \* quotas: no zero guard in the code
@@ -151,7 +164,7 @@ Undo(p) == /\ pc[p] = "undo"
            /\ Log(p, "Undo")
 
 \* ---- registries: check and insert under one lock -------------------------------------------
-Reg(p) == /\ K \in RegKinds /\ pc[p] = "start"
+Reg(p) == /\ K \in RegKinds /\ pc[p] = "start" /\ RegFree
           /\ IF ~Full(cnt)
              THEN /\ cnt' = cnt + 1 /\ eff' = [eff EXCEPT ![p] = 1]
                   /\ pc' = [pc EXCEPT ![p] = "adm"]
@@ -160,14 +173,26 @@ Reg(p) == /\ K \in RegKinds /\ pc[p] = "start"
              ELSE IF K = "tuncap"
              THEN /\ pc' = [pc EXCEPT ![p] = "refused"]
                   /\ UNCHANGED <<cnt, eff, q, pre>>
-             ELSE LET old == Head(q) IN      \* ClientRegistry: evict the oldest, then insert - the count stays at the cap
-                  /\ q' = Append(Tail(q), p)
-                  /\ cnt' = cnt
+             ELSE LET old == Head(q) IN      \* ClientRegistry: detach the oldest and close its stream (p is inside Close now)
+                  /\ q' = Tail(q)
+                  /\ cnt' = cnt - 1
                   /\ pre' = IF old > Old THEN pre - 1 ELSE pre
-                  /\ pc' = IF old > Old THEN [pc EXCEPT ![p] = "adm"] ELSE [pc EXCEPT ![p] = "adm", ![old] = "evicted"]
-                  /\ eff' = IF old > Old THEN [eff EXCEPT ![p] = 1] ELSE [eff EXCEPT ![p] = 1, ![old] = 0]
-          /\ UNCHANGED <<cfg, lock, dev>>
+                  /\ pc' = IF old > Old THEN [pc EXCEPT ![p] = "evict"] ELSE [pc EXCEPT ![p] = "evict", ![old] = "evicted"]
+                  /\ eff' = IF old > Old THEN eff ELSE [eff EXCEPT ![old] = 0]
+          /\ lock' = IF K = "ctrlcap" /\ CtrlLocked /\ Full(cnt) THEN [lock EXCEPT ![RL] = p] ELSE lock
+          /\ UNCHANGED <<cfg, dev>>
           /\ Log(p, "Reg")
+
+\* ... Close returned: insert. In the code this is still the lock section of Reg(p), so the count is the one Reg left;
+\* in the variant "ctrlsplit" others ran in between and the cap may have been reached again (deviation SplitRegister).
+RegIns(p) == /\ K = "ctrlcap" /\ pc[p] = "evict"
+             /\ q' = Append(q, p)
+             /\ cnt' = cnt + 1 /\ eff' = [eff EXCEPT ![p] = 1]
+             /\ dev' = (dev \/ Full(cnt))
+             /\ pc' = [pc EXCEPT ![p] = "adm"]
+             /\ lock' = IF CtrlLocked THEN [lock EXCEPT ![RL] = 0] ELSE lock
+             /\ UNCHANGED <<cfg, pre>>
+             /\ Log(p, "RegIns")
 
 \* mapping handler: the connection got its tunnel and is relayed from now on; handleConnection returns.
 \* As is, the deferred Add(-1) runs now (deviation SlotFreedWhileLive); repaired, the tunnel's close callback runs it.
@@ -179,7 +204,7 @@ GoLive(p) == /\ K = "maplimit" /\ WithRelease /\ pc[p] = "adm"
              /\ Log(p, IF LiveFixed THEN "GoLive" ELSE "Detach")
 
 \* an admitted connection ends
-Release(p) == /\ WithRelease /\ ~IsQuota /\ pc[p] \in {"adm", "live"}
+Release(p) == /\ WithRelease /\ ~IsQuota /\ pc[p] \in {"adm", "live"} /\ RegFree
               /\ cnt' = IF pc[p] = "live" /\ ~LiveFixed THEN cnt ELSE cnt - 1
               /\ eff' = [eff EXCEPT ![p] = 0]
               /\ pc' = [pc EXCEPT ![p] = "rel"]
@@ -233,7 +258,7 @@ Index(p) == /\ IsQuota /\ pc[p] = "index"
             /\ Log(p, "Index")
 
 Next == \E p \in Procs : \/ Check(p) \/ Insert(p) \/ InsertChk(p) \/ AddCmp(p) \/ Undo(p)
-                         \/ Reg(p) \/ GoLive(p) \/ Release(p)
+                         \/ Reg(p) \/ RegIns(p) \/ GoLive(p) \/ Release(p)
                          \/ Call(p) \/ Count(p) \/ Put(p) \/ Index(p)
 Spec == Init /\ [][Next]_vars
 
@@ -248,8 +273,8 @@ RefusedNoEffect == \A p \in Procs : pc[p] \in {"refused", "rel", "evicted", "sta
 \* the counter the code maintains is exact: occupants plus reservations about to be undone
 CounterExact == cnt = pre + Cardinality({p \in Procs : pc[p] \in {"adm", "undo"} \/ (LiveFixed /\ pc[p] = "live")})
 TypeOK == /\ cfg.n \in NS /\ cfg.lim \in Lims
-          /\ \A p \in Procs : pc[p] \in {"off", "start", "mid", "undo", "wait", "count", "put", "index", "adm", "live", "refused", "rel", "evicted"}
-          /\ \A i \in LockIds : lock[i] = 0 \/ pc[lock[i]] \in {"count", "put", "index"}
+          /\ \A p \in Procs : pc[p] \in {"off", "start", "mid", "undo", "evict", "wait", "count", "put", "index", "adm", "live", "refused", "rel", "evicted"}
+          /\ \A i \in LockIds : lock[i] = 0 \/ pc[lock[i]] \in {"count", "put", "index", "evict"}
           /\ (IsQuota /\ Fixed) => \A p \in Procs : pc[p] \in {"count", "put", "index"} => lock[LK(p)] = p
 
 \* generation without VIEW: one line per maximal behaviour (every request refused, ended, evicted, or admitted for good)
